@@ -75,7 +75,7 @@ def run(ctx):
     traces.append(t2)
     t3 = ctx.path("t_off.ndjson")
     rc, out = vlib.go_test(ctx, "off", [helper(ctx, "off"), os.path.join(W, "off_c07_test.go")], "TestVerifC07",
-                           env={"VERIF_OUT": t3, "VERIF_NRANDOM": 3 if q else 30})
+                           env={"VERIF_OUT": t3, "VERIF_NRANDOM": 6 if q else 60})
     if rc != 0:
         raise vlib.MachineryError("off driver failed:\n" + out[-3000:])
     traces.append(t3)
